@@ -471,3 +471,28 @@ Definition snapshot_read {A} (stale : bool) (cached_sp read_ts : N) (data : A) :
   | VisOk => (VisOk, Some data)
   | err => (err, None)
   end.
+
+(* one snapshot read under any schedule of safe-point updates: VUpdate overwrites the cached txn safe point at
+   any moment (UpdateTxnSafePointCache); VSend = a request leaves (the code checks nothing there); VCheck = the
+   check the code performs AFTER a response, against the safe point cached at that moment: after the response
+   of Get, after the last response of BatchGet, after the response of EVERY Scan / reverse-Scan batch.
+   Result: the verdict and the number of batches served before it. *)
+Inductive vis_event := VUpdate (sp : N) | VSend | VCheck.
+Fixpoint run_read (cached ts : N) (evs : list vis_event) : vis_result * nat :=
+  match evs with
+  | [] => (VisOk, O)
+  | VUpdate sp :: r => run_read sp ts r
+  | VSend :: r => run_read cached ts r
+  | VCheck :: r => match check_visibility false cached ts with
+                   | VisOk => let '(res, n) := run_read cached ts r in (res, S n)
+                   | err => (err, O)
+                   end
+  end.
+Fixpoint cached_after (cached : N) (evs : list vis_event) : N :=
+  match evs with
+  | [] => cached
+  | VUpdate sp :: r => cached_after sp r
+  | _ :: r => cached_after cached r
+  end.
+Definition is_check (e : vis_event) : bool := match e with VCheck => true | _ => false end.
+Definition count_checks (evs : list vis_event) : nat := length (filter is_check evs).
